@@ -2,7 +2,7 @@
    checkers applied to what the implementation actually did. *)
 From Coq Require Import String.
 From Coq Require Import List NArith ZArith Bool.
-From Verif Require Import GoStr GoNum GoHeader Sx Tables Route Forward Serve Wire SpecC04.
+From Verif Require Import GoStr GoNum GoHeader Sx Tables Route Forward Serve Wire SpecC01 SpecC02 SpecC03 SpecC04.
 Import ListNotations.
 Open Scope N_scope.
 
@@ -56,7 +56,10 @@ Definition mon_C04 (x o : sx) : sx :=
   first_fail
     ((if unknown && negb (Z.eqb (obs_status o) 407) && negb (Z.eqb (obs_status o) 404)
       then verdict false "unknown secret not answered 407" else v_ok)
+     (* with a retry_rule whose internal flag differs from its parent's, the parent destination may
+        legitimately have been contacted before the fallback route denies the request *)
      :: (if Z.eqb (obs_status o) 407 && negb (match obs_log o with [] => true | _ => false end)
+            && negb (existsb (fun r => match r_retry r with Some _ => true | None => false end) rs)
          then verdict false "407 but a destination was contacted" else v_ok)
      :: (if Z.eqb (obs_status o) 407 && negb unknown
             && negb (negb (nonempty (hget h hdr_secret)) && (nonempty (hget h hdr_req_id) || nonempty (hget h hdr_orig_ip))
@@ -64,19 +67,149 @@ Definition mon_C04 (x o : sx) : sx :=
          then verdict false "407 without cause" else v_ok)
      :: map per_dlv (obs_log o)).
 
+(* ---- C01 ---- *)
+Fixpoint index_where {X} (f : X -> bool) (l : list X) (i : nat) : option nat :=
+  match l with
+  | [] => None
+  | x :: l' => if f x then Some i else index_where f l' (S i)
+  end.
+
+(* the top-level proxy rule a delivery went to, by destination host *)
+Definition proxy_choice (rs : list rule) (log : list sx) : option nat :=
+  index_where (fun r => is_proxy r && existsb (fun d => str_eqb (url_host (r_dest r)) (url_host (dl_url d))) log) rs 0.
+
+Definition req_scheme_of (q : req) : str :=
+  req_scheme (q_tls q) (hget (q_hdrs q) (bytes "X-Forwarded-Proto")).
+
+Definition mon_C01 (x o : sx) : sx :=
+  let '(c, rs, q, sc) := route_case x in
+  let choice := proxy_choice rs (obs_log o) in
+  if str_eqb (obs_kind o) (bytes "recovered") || str_eqb (obs_kind o) (bytes "bare") then v_ok (* malformed request data: C05's business *)
+  else if negb (choice_ok rs (req_scheme_of q) (q_host q) (q_uri q) (q_method q) choice)
+  then verdict false "the request was not served by the first matching enabled rule"
+  else match choice with
+       | None => if Z.eqb (obs_status o) 404 || Z.eqb (obs_status o) 407 then v_ok
+                 else verdict false "no proxy rule served the request but the answer is not 404"
+       | Some _ => if Z.eqb (obs_status o) 404 && str_eqb (obs_kind o) (bytes "error-json")
+                   then verdict false "a proxy rule was contacted but the client got rrrouter's 404" else v_ok
+       end.
+
+(* ---- C02 ---- *)
+Definition mon_C02 (x o : sx) : sx :=
+  let '(c, rs, q, sc) := route_case x in
+  let per_dlv d :=
+      match rule_for_url rs (dl_url d) with
+      | None => verdict false "delivery to a destination no rule names"
+      | Some r =>
+        if negb (str_eqb (dl_url d) (expected_url (r_dest r) (r_path r) (q_uri q) (q_query q)))
+        then verdict false "requested URL is not destination + capture + client query"
+        else if dest_wellformed (r_dest r) && negb (same_origin (r_dest r) (dl_url d))
+        then verdict false "scheme/host/port contacted differ from the rule's"
+        else if nonempty (q_query q) && negb (match url_query (dl_url d) with Some qq => str_eqb qq (q_query q) | None => false end)
+        then verdict false "query string not carried over verbatim"
+        else v_ok
+      end in
+  first_fail (map per_dlv (obs_log o)).
+
+(* ---- C03 ---- *)
+Definition flavour_overrides (rs : list rule) (q : req) : list (str * option str) :=
+  match fst (rules_match rs (req_scheme_of q) (drop_port (q_host q)) (q_uri q) (q_method q)) with
+  | Some (_, r, _) => r_req_hdrs r
+  | None => []
+  end.
+
+Definition mon_C03 (x o : sx) : sx :=
+  let '(c, rs, q, sc) := route_case x in
+  let expected := expected_hdrs (q_hdrs q) (flavour_overrides rs q) in
+  let per_dlv d :=
+      match rule_for_url rs (dl_url d) with
+      | None => verdict false "delivery to a destination no rule names"
+      | Some r =>
+        if negb (str_eqb (dl_method d) (q_method q)) then verdict false "method changed"
+        else if negb (str_eqb (dl_body d) (q_body q)) then verdict false "request body not delivered intact"
+        else if negb (hdrs_intact expected (dl_hdrs d)) then verdict false "client headers changed, lost or added"
+        else if existsb (fun k => hhas (dl_hdrs d) k) hop_by_hop then verdict false "hop-by-hop header forwarded"
+        else if negb (str_eqb (dl_host d) (expected_host (r_hosthdr r) (q_host q) (dl_url d)))
+        then verdict false "Host does not follow the rule's hostheader setting"
+        else v_ok
+      end in
+  first_fail (map per_dlv (obs_log o)).
+
+(* ---- C20 ---- *)
+(* the copy rule the property designates: the first copy-typed rule before the chosen proxy
+   rule that applies; tri-valued like C01 *)
+Fixpoint copy_choice_ok (i : nat) (rs : list rule) (scheme hosthdr uri m : str) (proxy_idx : nat) (copy_idx : option nat) : bool :=
+  match rs with
+  | [] => match copy_idx with None => true | Some _ => false end
+  | r :: rs' =>
+    if Nat.leb proxy_idx i then match copy_idx with None => true | Some c => false end
+    else if is_proxy r then copy_choice_ok (S i) rs' scheme hosthdr uri m proxy_idx copy_idx
+    else match copy_idx with
+         | Some c => if Nat.eqb c i then negb (tri_is (applies r scheme hosthdr uri m) MustNot)
+                     else negb (tri_is (applies r scheme hosthdr uri m) Must)
+                          && copy_choice_ok (S i) rs' scheme hosthdr uri m proxy_idx copy_idx
+         | None => negb (tri_is (applies r scheme hosthdr uri m) Must)
+                   && copy_choice_ok (S i) rs' scheme hosthdr uri m proxy_idx copy_idx
+         end
+  end.
+
+Definition copy_choice (rs : list rule) (log : list sx) : option nat :=
+  index_where (fun r => negb (is_proxy r) && existsb (fun d => str_eqb (url_host (r_dest r)) (url_host (dl_url d))) log) rs 0.
+
+Definition is_proxy_dlv (rs : list rule) (d : sx) : bool :=
+  match rule_for_url rs (dl_url d) with Some r => is_proxy r | None => true end.
+
+Definition mon_C20 (x o : sx) : sx :=
+  let '(c, rs, q, sc) := route_case x in
+  let configured := match c_secrets c with Some _ => true | None => false end in
+  let base := sx_nth 0 o in
+  let variants := tl (sx_list o) in
+  let expected := expected_hdrs (q_hdrs q) (flavour_overrides rs q) in
+  let per_variant v :=
+      let denied := Z.eqb (obs_status v) 407 && configured && existsb (fun r => negb (is_proxy r) && r_internal r) rs in
+      if negb (sx_eqb (obs_client v) (obs_client base)) && negb denied
+      then verdict false "client response differs with the copy rule present"
+      else if negb denied && negb (sx_eqb (L (filter (is_proxy_dlv rs) (obs_log v))) (L (filter (is_proxy_dlv rs) (obs_log base))))
+      then verdict false "proxied deliveries differ with the copy rule present"
+      else if denied then v_ok
+      else match proxy_choice rs (obs_log v) with
+      | None => v_ok   (* no proxy rule selected: the property designates no copy rule *)
+      | Some pi =>
+        if negb (copy_choice_ok 0 rs (req_scheme_of q) (q_host q) (q_uri q) (q_method q) pi (copy_choice rs (obs_log v)))
+        then verdict false "copy went to a rule other than the first matching copy rule before the proxy rule"
+        else first_fail (map (fun d =>
+               match rule_for_url rs (dl_url d) with
+               | Some r =>
+                 if is_proxy r then v_ok
+                 else if negb (str_eqb (dl_url d) (expected_url (r_dest r) (r_path r) (q_uri q) (q_query q))) then verdict false "copy URL is not the copy rule's mapping"
+                 else if negb (str_eqb (dl_method d) (q_method q)) then verdict false "copy method differs"
+                 else if negb (str_eqb (dl_body d) (q_body q)) then verdict false "copy body differs"
+                 else if negb (hdrs_intact expected (dl_hdrs d)) then verdict false "copy headers differ"
+                 else v_ok
+               | None => verdict false "delivery to a destination no rule names"
+               end) (obs_log v))
+      end in
+  first_fail (map per_variant variants).
+
 (* ---- dispatch ---- *)
 Definition s_route : str := bytes "route".
 
 Definition run (x : sx) : sx :=
   let fam := sx_str (sx_nth 0 x) in
   if str_eqb fam s_route then run_route x
+  else if str_eqb fam (bytes "copy") then run_copy x
   else L [A (bytes "unknown-family")].
 
 Definition proj (x o : sx) : sx :=
   let fam := sx_str (sx_nth 0 x) in
   if str_eqb fam s_route then proj_route o
+  else if str_eqb fam (bytes "copy") then proj_copy o
   else o.
 
 Definition spec (prop : str) (x o : sx) : sx :=
-  if str_eqb prop (bytes "C04") then mon_C04 x o
+  if str_eqb prop (bytes "C01") then mon_C01 x o
+  else if str_eqb prop (bytes "C02") then mon_C02 x o
+  else if str_eqb prop (bytes "C03") then mon_C03 x o
+  else if str_eqb prop (bytes "C04") then mon_C04 x o
+  else if str_eqb prop (bytes "C20") then mon_C20 x o
   else verdict false "unknown property".
